@@ -1,6 +1,15 @@
 //! C16 — Interaction constructors: validation, lookup, classification, samplability.
 //! Drives the real constructors through `Qmc::make_*interaction*` and reports what they did.
 //! The oracle column evaluates the property directly on the real code (no model involved).
+//! Modes:
+//!   all        the standalone constructors (through `Qmc::make_*` on in-range variables), lookups, classification,
+//!              sampling of every accepted interaction on a fresh sampler (model: QmcModel/Interaction.lean)
+//!   tolwit     finding F23 replayed
+//!   qmcctor    SAMPLER-LEVEL constructors (F31): random sequences of the four `make_*interaction*` entry points on one
+//!              sampler, ~1/3 of the variables out of range, valid and invalid matrices, interleaved with time steps
+//!              (heat-bath on/off) and clones; after EVERY event the private fields are read through the serde snapshot
+//!              (model: QmcModel/QmcCtor.lean, theorems QmcProps/C16Sampler.lean)
+//!   afterconv  F32: Ising sampler stepped, `into_qmc`, further valid interactions, time steps; model-free oracle
 
 use qmc::sse::*;
 use vh::*;
@@ -283,9 +292,574 @@ fn run_case(variant: Variant, mat: &[f64], vars: &[usize], do_sample: bool) {
     emit(nontrivial, &input, &output, Some(oracle));
 }
 
+// ---------------------------------------------------------------------------------------------
+// mode qmcctor — the sampler-level constructors on ONE sampler (F31; seeds C17-17, C02-18, C09-18)
+// ---------------------------------------------------------------------------------------------
+
+/// histogram counters, printed once per mode (`STAT` lines feed the input distribution of the evidence)
+static COUNTS: std::sync::Mutex<std::collections::BTreeMap<String, usize>> = std::sync::Mutex::new(std::collections::BTreeMap::new());
+fn bump(key: &str, n: usize) {
+    *COUNTS.lock().unwrap().entry(key.to_string()).or_insert(0) += n;
+}
+fn flush_counts() {
+    for (k, v) in COUNTS.lock().unwrap().iter() {
+        stat(k, *v);
+    }
+}
+
+#[derive(Clone, Debug)]
+enum Ev {
+    Call(Variant, Vec<f64>, Vec<usize>),
+    /// time steps with the heat-bath option set to the flag
+    Step(bool),
+    /// `q.clone()`; the flag says whether the sequence continues on the clone
+    CloneQ(bool),
+}
+
+fn ev_tok(e: &Ev) -> String {
+    match e {
+        Ev::Call(v, m, vs) => format!("{}:{}:{}", v.name(), rats(m), list(vs)),
+        Ev::Step(hb) => format!("step:{}", *hb as u8),
+        Ev::CloneQ(u) => format!("clone:{}", *u as u8),
+    }
+}
+
+/// `<#bonds>:<offset>:<has_cluster_edges>:<breaks_ising_symmetry>:<non_const_diags>:<bond_weights present>`,
+/// the private fields read through the serde snapshot
+fn snap(q: &Q) -> String {
+    let js = serde_json::to_value(q).unwrap();
+    let ncd: Vec<u64> = js["non_const_diags"].as_array().unwrap().iter().map(|x| x.as_u64().unwrap()).collect();
+    format!(
+        "{}:{}:{}:{}:{}:{}",
+        q.get_bonds().len(),
+        rat(q.get_offset()),
+        js["has_cluster_edges"].as_bool().unwrap() as u8,
+        js["breaks_ising_symmetry"].as_bool().unwrap() as u8,
+        list(&ncd),
+        (!js["bond_weights"].is_null()) as u8
+    )
+}
+
+/// What the harness itself says about a matrix handed to constructor `v` for `nv` variables (no library code):
+/// None = the size does not fit; otherwise the shifted matrix's classification.
+struct Class {
+    has_neg: bool,
+    min_diag: f64,
+    /// a constant operator is a FULL matrix with all entries equal; a cluster edge is a constant single-site operator
+    edge: bool,
+    sym: bool,
+    const_diag: bool,
+}
+
+fn classify(v: Variant, mat: &[f64], nv: usize) -> Option<Class> {
+    let want_len = if v.is_diag() { 1usize.checked_shl(nv as u32) } else { 1usize.checked_shl(2 * nv as u32) };
+    if want_len != Some(mat.len()) {
+        return None;
+    }
+    let len = mat.len();
+    let tn = 1usize << nv;
+    let mut m = mat.to_vec();
+    let mut min_diag = 0.0;
+    if v.is_off() {
+        if v.is_diag() {
+            min_diag = m.iter().cloned().fold(f64::MAX, f64::min);
+            m.iter_mut().for_each(|x| *x -= min_diag);
+        } else {
+            min_diag = (0..tn).map(|i| m[i * tn + i]).fold(f64::MAX, f64::min);
+            (0..tn).for_each(|i| m[i * tn + i] -= min_diag);
+        }
+    }
+    let diag: Vec<f64> = if v.is_diag() { m.clone() } else { (0..tn).map(|i| m[i * tn + i]).collect() };
+    Some(Class {
+        has_neg: m.iter().any(|x| *x < 0.0),
+        min_diag,
+        edge: !v.is_diag() && nv == 1 && m.iter().all(|x| *x == m[0]),
+        sym: (0..len).all(|i| m[i] == m[len - 1 - i]),
+        const_diag: diag.iter().all(|x| *x == diag[0]),
+    })
+}
+
+#[derive(Clone, Default)]
+struct Want {
+    nb: usize,
+    offset: f64,
+    hce: bool,
+    bis: bool,
+    ncd: Vec<u64>,
+    bw: bool,
+}
+impl Want {
+    fn tok(&self) -> String {
+        format!("{}:{}:{}:{}:{}:{}", self.nb, rat(self.offset), self.hce as u8, self.bis as u8, list(&self.ncd), self.bw as u8)
+    }
+}
+
+#[derive(Clone, Copy, PartialEq, Eq, Debug)]
+enum MatClass {
+    Any,
+    Sym,
+    Break,
+    Const,
+    ConstDiag,
+}
+
+/// a right-sized matrix with entries k/4 of the wanted class (before the offset shift)
+fn gen_mat(g: &mut SplitMix64, v: Variant, nv: usize, c: MatClass) -> Vec<f64> {
+    let len = if v.is_diag() { 1usize << nv } else { 1usize << (2 * nv) };
+    let tn = 1usize << nv;
+    let mut mat: Vec<f64> = (0..len).map(|_| g.dyadic(0, 6, 4)).collect();
+    let mirror = |mat: &mut Vec<f64>| {
+        for i in 0..len {
+            mat[len - 1 - i] = mat[i];
+        }
+    };
+    match c {
+        MatClass::Any => {}
+        MatClass::Sym => mirror(&mut mat),
+        MatClass::Break => {
+            mirror(&mut mat);
+            let i = g.below(len as u64) as usize;
+            mat[i] += 0.5;
+        }
+        MatClass::Const => {
+            let x = 0.25 + g.dyadic(0, 6, 4);
+            mat.iter_mut().for_each(|e| *e = x);
+        }
+        MatClass::ConstDiag => {
+            if v.is_diag() {
+                let x = mat[0];
+                mat.iter_mut().for_each(|e| *e = x);
+            } else {
+                let x = g.dyadic(0, 6, 4);
+                (0..tn).for_each(|i| mat[i * tn + i] = x);
+            }
+        }
+    }
+    mat
+}
+
+/// `nv` distinct variables below `hi`
+fn distinct_vars(g: &mut SplitMix64, nv: usize, hi: usize) -> Vec<usize> {
+    let mut pool: Vec<usize> = (0..hi).collect();
+    let mut out = vec![];
+    for _ in 0..nv.min(hi) {
+        let i = g.below(pool.len() as u64) as usize;
+        out.push(pool.remove(i));
+    }
+    out
+}
+
+/// a random call: variables from 0..nvars+2 (so about a third of the calls name a variable the sampler does not
+/// have), sometimes repeated; matrices mostly valid, sometimes negative / wrong size
+fn gen_call(g: &mut SplitMix64, nvars: usize) -> Ev {
+    let variants = [Variant::New, Variant::NewOff, Variant::Diag, Variant::DiagOff];
+    let v = *g.pick(&variants);
+    let nv = if g.chance(1, 40) { 0 } else if v.is_diag() { g.range(1, 3) as usize } else { g.range(1, 2) as usize };
+    let hi = if g.chance(1, 3) { nvars } else { nvars + 2 };
+    let mut vars = distinct_vars(g, nv, hi.max(nv));
+    if nv >= 2 && g.chance(1, 8) {
+        let i = g.below(nv as u64) as usize;
+        let j = (i + 1 + g.below(nv as u64 - 1) as usize) % nv;
+        vars[j] = vars[i];
+    }
+    let c = *g.pick(&[MatClass::Any, MatClass::Sym, MatClass::Sym, MatClass::Break, MatClass::Const, MatClass::ConstDiag]);
+    let mut mat = gen_mat(g, v, nv, c);
+    let len = mat.len();
+    let tn = 1usize << nv;
+    if v.is_off() && g.chance(1, 2) {
+        // the offset variants take any diagonal: shift it (also below zero) so that a non-zero offset is reported
+        let d = g.range(-12, 12) as f64 / 4.0;
+        if v.is_diag() {
+            mat.iter_mut().for_each(|x| *x += d);
+        } else {
+            (0..tn).for_each(|i| mat[i * tn + i] += d);
+        }
+    }
+    if g.chance(1, 10) {
+        let i = g.below(len as u64) as usize;
+        mat[i] = -0.5 - g.dyadic(0, 4, 4);
+    }
+    if g.chance(1, 14) {
+        if g.coin() {
+            mat.push(0.5);
+        } else {
+            mat.pop();
+        }
+    }
+    Ev::Call(v, mat, vars)
+}
+
+/// a VALID call on in-range variables of the wanted class (used by the planned mixed sequences and by `afterconv`)
+fn gen_valid_call(g: &mut SplitMix64, nvars: usize, c: MatClass) -> Ev {
+    let variants = [Variant::New, Variant::NewOff, Variant::Diag, Variant::DiagOff];
+    let mut v = *g.pick(&variants);
+    if c == MatClass::Const {
+        v = if g.coin() { Variant::New } else { Variant::NewOff };
+    }
+    let maxv = if v.is_diag() { 3 } else { 2 };
+    let nv = if c == MatClass::Const && g.chance(3, 4) { 1 } else { (g.range(1, maxv) as usize).min(nvars) };
+    let vars = distinct_vars(g, nv, nvars);
+    let mut mat = gen_mat(g, v, nv, c);
+    if v.is_off() && g.coin() {
+        let d = g.range(-8, 8) as f64 / 4.0;
+        let tn = 1usize << nv;
+        if v.is_diag() {
+            mat.iter_mut().for_each(|x| *x += d);
+        } else {
+            (0..tn).for_each(|i| mat[i * tn + i] += d);
+        }
+    }
+    Ev::Call(v, mat, vars)
+}
+
+fn call_real(q: &mut Q, v: Variant, mat: &[f64], vars: &[usize]) -> Result<Result<(), String>, String> {
+    let (mat, vars) = (mat.to_vec(), vars.to_vec());
+    catch(|| match v {
+        Variant::New => q.make_interaction(mat, vars),
+        Variant::NewOff => q.make_interaction_and_offset(mat, vars),
+        Variant::Diag => q.make_diagonal_interaction(mat, vars),
+        Variant::DiagOff => q.make_diagonal_interaction_and_offset(mat, vars),
+    })
+}
+
+/// One sequence on one sampler. `plan`: calls to issue in this order (None = `ncalls` random calls); steps and clones
+/// are interleaved at random once the sampler has a bond.
+fn run_qmcctor(g: &mut SplitMix64, nvars: usize, loops: bool, plan: Option<Vec<Ev>>, ncalls: usize, tag: &str) {
+    let mut q = Q::new_with_state(nvars, SplitMix64::new(g.next()), (0..nvars).map(|_| g.coin()).collect::<Vec<bool>>(), loops);
+    let mut want = Want::default();
+    let mut evs: Vec<String> = vec![];
+    let mut out: Vec<String> = vec![];
+    let mut oracle: Result<(), String> = Ok(());
+    let (mut acc, mut rej, mut oor_calls, mut steps) = (0usize, 0usize, 0usize, 0usize);
+    let mut plan_it = plan.map(|p| p.into_iter());
+    let mut issued = 0usize;
+    'seq: loop {
+        // next event
+        let ev = if !q.get_bonds().is_empty() && g.chance(1, 4) {
+            if g.chance(2, 3) { Ev::Step(g.coin()) } else { Ev::CloneQ(g.coin()) }
+        } else {
+            let next = match plan_it.as_mut() {
+                Some(it) => it.next(),
+                None => if issued < ncalls { Some(gen_call(g, nvars)) } else { None },
+            };
+            match next {
+                Some(e) => { issued += 1; e }
+                None => break 'seq,
+            }
+        };
+        evs.push(ev_tok(&ev));
+        match &ev {
+            Ev::Call(v, mat, vars) => {
+                let before = snap(&q);
+                let res = match call_real(&mut q, *v, mat, vars) {
+                    Ok(r) => r,
+                    Err(p) => {
+                        out.push("P".into());
+                        oracle = Err(format!("{} panicked: {}", ev_tok(&ev), p));
+                        break 'seq;
+                    }
+                };
+                let after = snap(&q);
+                // ---- the harness's own rule, no library code ----
+                let nv = vars.len();
+                let cl = classify(*v, mat, nv);
+                let dup = (1..nv).any(|i| vars[..i].contains(&vars[i]));
+                let oor = vars.iter().any(|x| *x >= nvars);
+                if oor { oor_calls += 1; }
+                let why_reject = if cl.is_none() { Some("matrix size does not match the variable list") }
+                    else if cl.as_ref().unwrap().has_neg { Some("negative weight") }
+                    else if dup { Some("the variable list names a variable twice") }
+                    else if oor { Some("a variable index is >= the sampler's number of variables (finding F31)") }
+                    else { None };
+                match res {
+                    Err(_) => {
+                        rej += 1;
+                        out.push(format!("E:{}", after));
+                        if why_reject.is_none() && nv >= 1 {
+                            oracle = Err(format!("{}: valid interaction on variables the sampler has was rejected", ev_tok(&ev)));
+                        } else if after != before {
+                            oracle = Err(format!("{}: the call returned Err but changed the sampler: {} -> {} (bonds:offset:has_cluster_edges:breaks_ising_symmetry:non_const_diags:bond_weights)", ev_tok(&ev), before, after));
+                        }
+                    }
+                    Ok(()) => {
+                        acc += 1;
+                        out.push(format!("A:{}", after));
+                        if let Some(w) = why_reject {
+                            oracle = Err(format!("{}: accepted although {}", ev_tok(&ev), w));
+                        } else if nv == 0 {
+                            oracle = Err(format!("{}: accepted an interaction on no variable", ev_tok(&ev)));
+                        } else {
+                            let cl = cl.unwrap();
+                            if !cl.const_diag { want.ncd.push(want.nb as u64); }
+                            want.nb += 1;
+                            if v.is_off() { want.offset -= cl.min_diag; }
+                            want.hce |= cl.edge;
+                            want.bis |= !cl.sym;
+                            want.bw = false;
+                            if after != want.tok() {
+                                oracle = Err(format!("{}: accepted; sampler fields {} but by the interactions accepted so far they must be {} (bonds:offset:has_cluster_edges:breaks_ising_symmetry:non_const_diags:bond_weights)", ev_tok(&ev), after, want.tok()));
+                            } else if q.should_do_cluster_update() != (want.hce && !want.bis) {
+                                oracle = Err(format!("{}: should_do_cluster_update() = {}", ev_tok(&ev), q.should_do_cluster_update()));
+                            }
+                        }
+                    }
+                }
+            }
+            Ev::Step(hb) => {
+                steps += 1;
+                q.set_do_heatbath(*hb);
+                let r = catch(|| {
+                    for beta in [1.0, 0.5, 2.0] {
+                        for _ in 0..4 {
+                            q.timestep(beta);
+                        }
+                    }
+                });
+                match r {
+                    Err(p) => {
+                        out.push("P".into());
+                        oracle = Err(format!("sampling the accepted interactions panicked (loops={} heatbath={}): {}", loops, hb, p));
+                        break 'seq;
+                    }
+                    Ok(()) => {
+                        if *hb { want.bw = true; }
+                        let s = snap(&q);
+                        out.push(format!("s:{}", s));
+                        if s != want.tok() {
+                            oracle = Err(format!("after time steps the sampler fields are {} but must be {}", s, want.tok()));
+                        }
+                    }
+                }
+            }
+            Ev::CloneQ(use_clone) => {
+                let c = match catch(|| q.clone()) {
+                    Ok(c) => c,
+                    Err(p) => {
+                        out.push("P".into());
+                        oracle = Err(format!("clone panicked: {}", p));
+                        break 'seq;
+                    }
+                };
+                let (a, b) = (snap(&q), snap(&c));
+                out.push(format!("k:{}", b));
+                if a != b {
+                    oracle = Err(format!("clone differs from the original: {} vs {} (bonds:offset:has_cluster_edges:breaks_ising_symmetry:non_const_diags:bond_weights)", b, a));
+                } else if c.should_do_cluster_update() != q.should_do_cluster_update() {
+                    oracle = Err("clone: should_do_cluster_update differs".to_string());
+                }
+                if *use_clone { q = c; }
+            }
+        }
+        if oracle.is_err() {
+            break 'seq;
+        }
+    }
+    bump("qmcctor_calls_accepted", acc);
+    bump("qmcctor_calls_rejected", rej);
+    bump("qmcctor_calls_with_out_of_range_variable", oor_calls);
+    bump("qmcctor_step_events", steps);
+    bump(&format!("qmcctor_sequences_{}", tag), 1);
+    let input = format!("qmcctor {} {}", nvars, if evs.is_empty() { "-".to_string() } else { evs.join(" ") });
+    emit(acc >= 1 && rej >= 1 || tag != "random", &input, &if out.is_empty() { "-".to_string() } else { out.join(" ") }, Some(oracle));
+}
+
+fn mode_qmcctor(a: &Args) {
+    let mut g = SplitMix64::new(a.seed ^ 0xC16_C7);
+    // 1. the F31 witness input itself: 2 variables, two transverse terms, a diagonal term on variable 5
+    run_qmcctor(&mut g, 2, false, Some(vec![
+        Ev::Call(Variant::New, vec![1.0; 4], vec![0]),
+        Ev::Call(Variant::New, vec![1.0; 4], vec![1]),
+        Ev::Call(Variant::Diag, vec![1.0, 2.0], vec![5]),
+        Ev::Call(Variant::Diag, vec![1.0, 2.0], vec![1]),
+    ]), 0, "f31_witness");
+    // 2. planned mixed sequences of VALID in-range calls: symmetric / symmetry-breaking / constant single-site /
+    //    constant-diagonal interactions in every order of a random triple (flags must be OR-ed, never assigned,
+    //    and must not depend on the order)
+    let n_plan = if a.thorough { 1000 } else { 150 };
+    let classes = [MatClass::Sym, MatClass::Break, MatClass::Const, MatClass::ConstDiag, MatClass::Any];
+    for _ in 0..n_plan {
+        let nvars = g.range(1, 5) as usize;
+        let triple: Vec<Ev> = (0..3).map(|k| {
+            let c = if k == 0 { MatClass::Sym } else if k == 1 { MatClass::Break } else { *g.pick(&classes) };
+            gen_valid_call(&mut g, nvars, c)
+        }).collect();
+        for perm in [[0usize, 1, 2], [0, 2, 1], [1, 0, 2], [1, 2, 0], [2, 0, 1], [2, 1, 0]] {
+            let plan: Vec<Ev> = perm.iter().map(|i| triple[*i].clone()).collect();
+            let loops = g.coin();
+            run_qmcctor(&mut g, nvars, loops, Some(plan), 0, "planned_order");
+        }
+    }
+    // 3. random sequences
+    let n_rand = if a.thorough { 20000 } else { 2500 };
+    for _ in 0..n_rand {
+        let nvars = g.range(1, 5) as usize;
+        let ncalls = g.range(3, 10) as usize;
+        let loops = g.coin();
+        run_qmcctor(&mut g, nvars, loops, None, ncalls, "random");
+    }
+    flush_counts();
+}
+
+// ---------------------------------------------------------------------------------------------
+// mode afterconv — F32: interactions added to a sampler produced by `into_qmc`, then sampled
+// ---------------------------------------------------------------------------------------------
+
+type G = DefaultQmcIsingGraph<SplitMix64>;
+
+/// consistency of the converted sampler through the public API: operator string closes on the state, per-bond
+/// counters equal a direct count, every operator belongs to a registered bond
+fn consistency(q: &Q) -> Result<(), String> {
+    use qmc::sse::qmc_traits::{Op, OpContainer};
+    let m = q.get_manager_ref();
+    let state = q.clone_state();
+    match propagate_check(m, &state) {
+        Err(p) => return Err(format!("operator at p={} does not meet its inputs", p)),
+        Ok(fin) => {
+            if fin != state {
+                return Err("the operator string does not return to the initial state".to_string());
+            }
+        }
+    }
+    if !m.verify(&state) {
+        return Err("OpContainer::verify is false".to_string());
+    }
+    let nb = q.get_bonds().len();
+    // `Interaction::vars` is private: read it through the serde snapshot
+    let js = serde_json::to_value(q.get_bonds()).unwrap();
+    let bond_vars: Vec<Vec<usize>> = (0..nb)
+        .map(|b| js[b]["vars"].as_array().unwrap().iter().map(|x| x.as_u64().unwrap() as usize).collect())
+        .collect();
+    let mut direct = vec![0usize; nb + 2];
+    for p in 0..m.get_cutoff() {
+        if let Some(op) = m.get_pth(p) {
+            let b = op.get_bond();
+            if b >= nb {
+                return Err(format!("operator at p={} has bond {} of {}", p, b, nb));
+            }
+            if op.get_vars() != &bond_vars[b][..] {
+                return Err(format!("operator at p={} of bond {} acts on {:?}", p, b, op.get_vars()));
+            }
+            direct[b] += 1;
+        }
+    }
+    for b in 0..nb + 2 {
+        let c = q.get_bond_count(b);
+        if c != direct[b] {
+            return Err(format!("get_bond_count({}) = {} but the operator string holds {} operators of that bond", b, c, direct[b]));
+        }
+    }
+    if direct.iter().sum::<usize>() != q.get_n() {
+        return Err(format!("get_n() = {} but the operator string holds {} operators", q.get_n(), direct.iter().sum::<usize>()));
+    }
+    Ok(())
+}
+
+fn run_afterconv(g: &mut SplitMix64, witness: Option<(f64, usize)>) {
+    let nv = if witness.is_some() { 4 } else { g.range(2, 5) as usize };
+    let mut edges: Vec<((usize, usize), f64)> = vec![];
+    let jval = |g: &mut SplitMix64| -> f64 {
+        let m = *g.pick(&[0.25, 0.5, 1.0, 1.5]);
+        if g.coin() { m } else { -m }
+    };
+    if witness.is_some() {
+        edges = vec![((0, 1), 1.0), ((1, 2), -1.0), ((2, 3), 1.0)];
+    } else {
+        for x in 0..nv - 1 {
+            edges.push(((x, x + 1), jval(g)));
+        }
+        if nv > 2 && g.coin() {
+            edges.push(((nv - 1, 0), jval(g)));
+        }
+    }
+    let gamma = if witness.is_some() { 0.75 } else { *g.pick(&[0.25, 0.5, 0.75, 1.0, 1.5]) };
+    let h = match witness { Some((h, _)) => h, None => *g.pick(&[0.0, 0.0, 0.0, 0.5, -0.5, 0.25, 1.0]) };
+    let pre = if witness.is_some() { 50 } else { g.range(0, 40) as usize };
+    let beta = if witness.is_some() { 1.0 } else { *g.pick(&[0.5, 1.0, 2.0]) };
+    let seed = g.next() % 1000;
+    let hb_ising = witness.is_none() && g.chance(1, 3);
+    let extra = match witness { Some((_, e)) => e, None => g.range(1, nv as i64 + 3) as usize };
+    let calls: Vec<Ev> = (0..extra).map(|k| {
+        if witness.is_some() {
+            Ev::Call(Variant::Diag, vec![0.5, 1.5], vec![k % 4])
+        } else {
+            let c = *g.pick(&[MatClass::Any, MatClass::Sym, MatClass::Break, MatClass::Const, MatClass::ConstDiag]);
+            gen_valid_call(g, nv, c)
+        }
+    }).collect();
+    let loops = witness.is_none() && g.coin();
+    let hb = witness.is_none() && g.coin();
+    let post = if witness.is_some() { 300 } else { 40 };
+    let etok = edges.iter().map(|((a, b), j)| format!("{},{}:{}", a, b, rat(*j))).collect::<Vec<_>>().join("!");
+    let input = format!(
+        "afterconv {} {} {} {} {} {} {} {} {} {} {} {}",
+        etok, rat(gamma), rat(h), nv, pre, rat(beta), seed, hb_ising as u8,
+        calls.iter().map(ev_tok).collect::<Vec<_>>().join("!"), loops as u8, hb as u8, post
+    );
+    let run = catch(|| -> Result<(), String> {
+        let mut ig = G::new_with_rng(edges.clone(), gamma, h, nv, SplitMix64::new(seed), None);
+        if hb_ising {
+            ig.set_enable_heatbath(true);
+        }
+        ig.timesteps(pre, beta);
+        let mut q: Q = ig.into_qmc();
+        consistency(&q).map_err(|e| format!("right after into_qmc: {}", e))?;
+        for c in &calls {
+            if let Ev::Call(v, mat, vars) = c {
+                let (mat, vars) = (mat.clone(), vars.clone());
+                let r = match v {
+                    Variant::New => q.make_interaction(mat, vars),
+                    Variant::NewOff => q.make_interaction_and_offset(mat, vars),
+                    Variant::Diag => q.make_diagonal_interaction(mat, vars),
+                    Variant::DiagOff => q.make_diagonal_interaction_and_offset(mat, vars),
+                };
+                if let Err(e) = r {
+                    return Err(format!("valid interaction {} rejected after into_qmc: {}", ev_tok(c), e));
+                }
+            }
+        }
+        q.set_do_loop_updates(loops);
+        q.set_do_heatbath(hb);
+        for t in 0..post {
+            q.timestep(beta);
+            if t % 10 == 9 {
+                consistency(&q).map_err(|e| format!("after {} steps on the converted sampler with {} added interaction(s): {}", t + 1, extra, e))?;
+            }
+        }
+        consistency(&q).map_err(|e| format!("after {} steps on the converted sampler with {} added interaction(s): {}", post, extra, e))
+    });
+    let (output, oracle) = match run {
+        Ok(Ok(())) => ("ok", Ok(())),
+        Ok(Err(e)) => ("ok", Err(e)),
+        Err(p) => ("P", Err(format!("an interaction ACCEPTED after into_qmc made the sampler panic (h = {}, {} added, loops={} heatbath={}; finding F32): {}", h, extra, loops, hb, p))),
+    };
+    bump(if h == 0.0 { "afterconv_h_zero" } else { "afterconv_h_nonzero" }, 1);
+    bump(if extra > nv { "afterconv_more_than_nvars_added" } else { "afterconv_at_most_nvars_added" }, 1);
+    emit(true, &input, output, Some(oracle));
+}
+
+fn mode_afterconv(a: &Args) {
+    let mut g = SplitMix64::new(a.seed ^ 0xAF7E_2C);
+    // the two F32 witness scenarios
+    run_afterconv(&mut g, Some((0.5, 1)));
+    run_afterconv(&mut g, Some((0.0, 5)));
+    let n = if a.thorough { 5000 } else { 600 };
+    for _ in 0..n {
+        run_afterconv(&mut g, None);
+    }
+    flush_counts();
+}
+
 fn main() {
     quiet_panics();
     let a = args();
+    if a.mode == "qmcctor" {
+        mode_qmcctor(&a);
+        return;
+    }
+    if a.mode == "afterconv" {
+        mode_afterconv(&a);
+        return;
+    }
     let mut g = SplitMix64::new(a.seed ^ 0xC16);
     let variants = [Variant::New, Variant::NewOff, Variant::Diag, Variant::DiagOff];
     if let Some(path) = &a.replay {
